@@ -1,5 +1,6 @@
 import LabtechModel.Proofs.Submit
 import LabtechModel.Proofs.InvMain
+import LabtechModel.Proofs.IntrResults
 /-!
 # C17 — Intermediate results live exactly as long as a dependent needs them
 
@@ -21,6 +22,18 @@ the master invariant of `Proofs/InvLoop.lean`), at every reachable loop head wit
   been yielded;
 * `empty_at_return`: when `run_tasks` returns normally the runner holds no result at all (also when
   tasks failed, under `continue_on_failure`).
+At EVERY INSTANT of every (possibly interrupted) run (statement-level model M10, `Proofs/IntrResults.lean`;
+after every primitive prefix of the main stream, of the first handler entered at any instant and of the
+second handler entered at any instant; no hypothesis) — see the section at the end of this file:
+* `held_is_yielded_every_instant` (+ `_handler`, `_second`), `yielded_once_every_instant`: SAFETY;
+* `needed_is_held_every_instant` (+ `_handler`, `_second`), `needed_is_held_trace_every_instant`,
+  `needed_spec_every_instant`: VALUE — a needed result is never missing once `complete_task(d)` was entered;
+* `released_only_when_unneeded_every_instant` (+ `_handler`, `_second`),
+  `remove_event_only_unneeded_every_instant`: whatever leaves the map in one step was needed by nobody;
+* `captured_before_release_every_instant`, `captured_every_instant`: requested results are in
+  `task_results` before they can leave the map;
+* `results_sound_interrupted`: the same for the states `interruptedRun` returns; `loop_head_exact`: the two
+  directions close to the loop-head equality at the end of the stream.
 -/
 namespace Lt.Props.C17
 open Lt
@@ -152,5 +165,363 @@ example :
     (run invExCfg invExP [] 4 (List.replicate 5 chooseFirst)).status = .returned [(3, 6000), (1, 1000)] ∧
     (run invExCfg { invExP with fails := fun t => t == 1 } [] 4 (List.replicate 5 chooseFirst)).status
       = .returned [(3, 5007)] := by decide
+
+/-! ## at EVERY INSTANT of EVERY INTERRUPTED run (statement granularity, model M10)
+
+`Model/Intr.lean` re-expresses the coordinator loop as a stream of primitives, one per Python statement
+that changes modelled state. `mainAt … k` is the state after the first `k` primitives of the main loop's
+stream — between the statements of `process_completed_tasks`, `complete_task`, `remove_results` included —
+for EVERY `k`; `handlerAt … k ds m` the state after `m` further primitives of the `KeyboardInterrupt`
+handler (`cancel`, drain along `ds`) entered at instant `k`; `secondAt … k ds m m2` after `m2` primitives of
+the second handler (`cancel`, `stop`, one last processing round) entered at instant `m` of the first.
+(Same definitions as in `Props/C02.lean`, `Props/C04.lean`.) The invariant `RI` of
+`Proofs/IntrResults.lean` holds in all of them, and the transition fact `RT` between any two consecutive
+instants, for every problem, configuration, cache pre-state, fuel, schedule and drain schedule; no
+hypothesis.
+
+What is and is not true between two loop heads (see the `example`s at the end):
+* SAFETY (`held_is_yielded_…`): always.
+* the "iff" of `results_value` is FALSE at some instants: between `releaseOne` (the last dependent left
+  `task_to_pending_dependents[d]`) and `removeResult d` an unneeded result is still held;
+* VALUE (`needed_is_held_…`): the model records `yield d` at `future_to_task.pop`, the statements
+  `results_map[d] = …`, `task_results[d] = …`, `_set_result_meta` follow, then `complete_task(d)` removes `d`
+  from `type_to_active_tasks`. While `d` is still active (at most the 4 instants after the pop in an
+  uninterrupted run) the entry may be missing: it IS missing at the one instant right after the pop, and
+  for ever if the interrupt falls exactly there (the handlers never resume the interrupted loop body; `d`
+  then stays active for ever). Hence the hypothesis `d ∉ active`. It costs nothing for "never released
+  while needed": that is `released_only_when_unneeded_…`, which has no such hypothesis.
+* the second handler's `stop()` does not touch the results map: all statements hold there unchanged. -/
+
+/-- state after the first `k` primitives of the main loop's stream (`k` beyond its end: the end) -/
+abbrev mainAt (cfg : Config) (p : Problem) (store : Store) (fuel : Nat) (sched : List Choice) (k : Nat) : IS :=
+  stateAt cfg p store fuel sched k
+
+/-- state after `m` primitives of the first interrupt handler entered at instant `k` -/
+abbrev handlerAt (cfg : Config) (p : Problem) (store : Store) (fuel : Nat) (sched : List Choice) (k : Nat)
+    (ds : List Choice) (m : Nat) : IS :=
+  runPrims cfg p ((handlerPrims cfg p (reqTids p) ds (mainAt cfg p store fuel sched k)).take m)
+    (mainAt cfg p store fuel sched k)
+
+/-- state after `m2` primitives of the second handler entered at instant `m` of the first -/
+abbrev secondAt (cfg : Config) (p : Problem) (store : Store) (fuel : Nat) (sched : List Choice) (k : Nat)
+    (ds : List Choice) (m m2 : Nat) : IS :=
+  runPrims cfg p ((secondPrims cfg p (reqTids p) (handlerAt cfg p store fuel sched k ds m)).take m2)
+    (handlerAt cfg p store fuel sched k ds m)
+
+/-- the states of `interruptedRun` (at the interrupt, and final) are among these -/
+theorem interruptedRun_states (cfg : Config) (p : Problem) (store : Store) (fuel : Nat)
+    (sched ds : List Choice) (k : Nat) (k2 : Option Nat) :
+    (∃ k', (interruptedRun cfg p store fuel sched k ds k2).atIntr = mainAt cfg p store fuel sched k') ∧
+    ((∃ k', (interruptedRun cfg p store fuel sched k ds k2).final = mainAt cfg p store fuel sched k') ∨
+     (∃ m, (interruptedRun cfg p store fuel sched k ds k2).final = handlerAt cfg p store fuel sched k ds m) ∨
+     (∃ m m2, (interruptedRun cfg p store fuel sched k ds k2).final = secondAt cfg p store fuel sched k ds m m2)) :=
+  interruptedRun_cases store fuel sched ds k k2
+
+/-- (A) SAFETY at every instant of the main loop: whatever `results_map` holds after ANY number `k` of
+    statements is a value that was really yielded for that task (in particular nothing is held for a task
+    that was yielded as failed or died), and no key is held twice -/
+theorem held_is_yielded_every_instant (cfg : Config) (p : Problem) (store : Store) (fuel : Nat)
+    (sched : List Choice) (k : Nat) :
+    let s := mainAt cfg p store fuel sched k
+    (∀ d v, (d, v) ∈ s.rs.results →
+      Ev.yield d (.ok v) ∈ s.rs.trace ∧ Ev.yield d .exc ∉ s.rs.trace ∧ Ev.yield d .died ∉ s.rs.trace) ∧
+    (s.rs.results.map Prod.fst).Nodup :=
+  (stateAt_RI store fuel sched k).heldSound
+
+/-- … at every instant of the interrupt handler (cancel + drain) entered at any instant `k` -/
+theorem held_is_yielded_every_instant_handler (cfg : Config) (p : Problem) (store : Store) (fuel : Nat)
+    (sched : List Choice) (k : Nat) (ds : List Choice) (m : Nat) :
+    let s := handlerAt cfg p store fuel sched k ds m
+    (∀ d v, (d, v) ∈ s.rs.results →
+      Ev.yield d (.ok v) ∈ s.rs.trace ∧ Ev.yield d .exc ∉ s.rs.trace ∧ Ev.yield d .died ∉ s.rs.trace) ∧
+    (s.rs.results.map Prod.fst).Nodup :=
+  (handlerStateAt_RI store fuel sched k ds m).heldSound
+
+/-- … at every instant of the second handler (double interrupt at any `k`, `m`) -/
+theorem held_is_yielded_every_instant_second (cfg : Config) (p : Problem) (store : Store) (fuel : Nat)
+    (sched : List Choice) (k : Nat) (ds : List Choice) (m m2 : Nat) :
+    let s := secondAt cfg p store fuel sched k ds m m2
+    (∀ d v, (d, v) ∈ s.rs.results →
+      Ev.yield d (.ok v) ∈ s.rs.trace ∧ Ev.yield d .exc ∉ s.rs.trace ∧ Ev.yield d .died ∉ s.rs.trace) ∧
+    (s.rs.results.map Prod.fst).Nodup :=
+  (secondStateAt_RI store fuel sched k ds m m2).heldSound
+
+/-- every task is yielded at most once, at every instant of all three streams (what makes "the value
+    `d` was yielded with" well defined) -/
+theorem yielded_once_every_instant (cfg : Config) (p : Problem) (store : Store) (fuel : Nat)
+    (sched : List Choice) (k : Nat) (ds : List Choice) (m m2 : Nat) :
+    (yieldedOf (mainAt cfg p store fuel sched k).rs.trace).Nodup ∧
+    (yieldedOf (handlerAt cfg p store fuel sched k ds m).rs.trace).Nodup ∧
+    (yieldedOf (secondAt cfg p store fuel sched k ds m m2).rs.trace).Nodup :=
+  ⟨(stateAt_RI store fuel sched k).yNd, (handlerStateAt_RI store fuel sched k ds m).yNd,
+    (secondStateAt_RI store fuel sched k ds m m2).yNd⟩
+
+/-- (B) VALUE at every instant of the main loop, with the condition of the loop-head theorem: a
+    successfully yielded `d` that has left the active set (`complete_task(d)` has been entered) and still
+    has an entry in `task_to_pending_dependents[d]` IS in the map with the value it was yielded with — a
+    result is NEVER missing while a direct dependent still needs it, between the statements of
+    `complete_task` / `remove_results` included -/
+theorem needed_is_held_every_instant (cfg : Config) (p : Problem) (store : Store) (fuel : Nat)
+    (sched : List Choice) (k : Nat) (d : Tid) (v : Val) :
+    let s := mainAt cfg p store fuel sched k
+    Ev.yield d (.ok v) ∈ s.rs.trace → d ∉ s.rs.ts.active → s.rs.ts.pendDependents d ≠ [] →
+      (d, v) ∈ s.rs.results :=
+  (stateAt_RI store fuel sched k).held d v
+
+/-- … during the drain of the first handler, whatever instant `k` the interrupt fell on -/
+theorem needed_is_held_every_instant_handler (cfg : Config) (p : Problem) (store : Store) (fuel : Nat)
+    (sched : List Choice) (k : Nat) (ds : List Choice) (m : Nat) (d : Tid) (v : Val) :
+    let s := handlerAt cfg p store fuel sched k ds m
+    Ev.yield d (.ok v) ∈ s.rs.trace → d ∉ s.rs.ts.active → s.rs.ts.pendDependents d ≠ [] →
+      (d, v) ∈ s.rs.results :=
+  (handlerStateAt_RI store fuel sched k ds m).held d v
+
+/-- … and in the last round after a second Ctrl-C (`stop()` does not touch the map) -/
+theorem needed_is_held_every_instant_second (cfg : Config) (p : Problem) (store : Store) (fuel : Nat)
+    (sched : List Choice) (k : Nat) (ds : List Choice) (m m2 : Nat) (d : Tid) (v : Val) :
+    let s := secondAt cfg p store fuel sched k ds m m2
+    Ev.yield d (.ok v) ∈ s.rs.trace → d ∉ s.rs.ts.active → s.rs.ts.pendDependents d ≠ [] →
+      (d, v) ∈ s.rs.results :=
+  (secondStateAt_RI store fuel sched k ds m m2).held d v
+
+/-- (B) with "needed" read off the trace: some planned direct dependent `t` of `d` has no `yield` on
+    record yet. All three streams. -/
+theorem needed_is_held_trace_every_instant (cfg : Config) (p : Problem) (store : Store) (fuel : Nat)
+    (sched : List Choice) (k : Nat) (ds : List Choice) (m m2 : Nat) (s : IS)
+    (hs : s = mainAt cfg p store fuel sched k ∨ s = handlerAt cfg p store fuel sched k ds m ∨
+      s = secondAt cfg p store fuel sched k ds m m2)
+    (d : Tid) (v : Val) (t : Tid) (hy : Ev.yield d (.ok v) ∈ s.rs.trace) (hna : d ∉ s.rs.ts.active)
+    (hd : d ∈ (plan cfg p store fuel).ddeps t) (hny : ∀ o, Ev.yield t o ∉ s.rs.trace) :
+    (d, v) ∈ s.rs.results := by
+  rcases hs with rfl | rfl | rfl
+  · exact (stateAt_RI store fuel sched k).neededHeld d v t hy hna hd hny
+  · exact (handlerStateAt_RI store fuel sched k ds m).neededHeld d v t hy hna hd hny
+  · exact (secondStateAt_RI store fuel sched k ds m m2).neededHeld d v t hy hna hd hny
+
+/-- `needed_spec` at every instant of all three streams: `task_to_pending_dependents[d]` lists only
+    planned direct dependents of `d`, and at least all those that have not been yielded (the task whose
+    `complete_task` is in progress, or was interrupted, may still be listed: that is the only difference to
+    the loop-head equality) -/
+theorem needed_spec_every_instant (cfg : Config) (p : Problem) (store : Store) (fuel : Nat)
+    (sched : List Choice) (k : Nat) (ds : List Choice) (m m2 : Nat) (s : IS)
+    (hs : s = mainAt cfg p store fuel sched k ∨ s = handlerAt cfg p store fuel sched k ds m ∨
+      s = secondAt cfg p store fuel sched k ds m m2) (d t : Tid) :
+    (t ∈ s.rs.ts.pendDependents d → d ∈ (plan cfg p store fuel).ddeps t) ∧
+    (d ∈ (plan cfg p store fuel).ddeps t → (∀ o, Ev.yield t o ∉ s.rs.trace) → t ∈ s.rs.ts.pendDependents d) := by
+  rcases hs with rfl | rfl | rfl
+  · exact (stateAt_RI store fuel sched k).neededSpec d t
+  · exact (handlerStateAt_RI store fuel sched k ds m).neededSpec d t
+  · exact (secondStateAt_RI store fuel sched k ds m m2).neededSpec d t
+
+/-- (C) whatever statement is executed at ANY instant `k` of the main loop: an entry `(d, v)` that is in
+    `results_map` at instant `k` and not at instant `k + 1` had an empty `task_to_pending_dependents[d]`,
+    and every planned direct dependent of `d` had been yielded — nobody needed it any more -/
+theorem released_only_when_unneeded_every_instant (cfg : Config) (p : Problem) (store : Store) (fuel : Nat)
+    (sched : List Choice) (k : Nat) (d : Tid) (v : Val)
+    (hd : (d, v) ∈ (mainAt cfg p store fuel sched k).rs.results)
+    (hnot : (d, v) ∉ (mainAt cfg p store fuel sched (k + 1)).rs.results) :
+    (mainAt cfg p store fuel sched k).rs.ts.pendDependents d = [] ∧
+    ∀ t, d ∈ (plan cfg p store fuel).ddeps t → ∃ o, Ev.yield t o ∈ (mainAt cfg p store fuel sched k).rs.trace :=
+  (stateAt_RI store fuel sched k).released (stateAt_RT store fuel sched k) d v hd hnot
+
+/-- … between any two consecutive instants of the first handler -/
+theorem released_only_when_unneeded_every_instant_handler (cfg : Config) (p : Problem) (store : Store) (fuel : Nat)
+    (sched : List Choice) (k : Nat) (ds : List Choice) (m : Nat) (d : Tid) (v : Val)
+    (hd : (d, v) ∈ (handlerAt cfg p store fuel sched k ds m).rs.results)
+    (hnot : (d, v) ∉ (handlerAt cfg p store fuel sched k ds (m + 1)).rs.results) :
+    (handlerAt cfg p store fuel sched k ds m).rs.ts.pendDependents d = [] ∧
+    ∀ t, d ∈ (plan cfg p store fuel).ddeps t →
+      ∃ o, Ev.yield t o ∈ (handlerAt cfg p store fuel sched k ds m).rs.trace :=
+  (handlerStateAt_RI store fuel sched k ds m).released (handlerStateAt_RT store fuel sched k ds m) d v hd hnot
+
+/-- … and of the second handler -/
+theorem released_only_when_unneeded_every_instant_second (cfg : Config) (p : Problem) (store : Store) (fuel : Nat)
+    (sched : List Choice) (k : Nat) (ds : List Choice) (m m2 : Nat) (d : Tid) (v : Val)
+    (hd : (d, v) ∈ (secondAt cfg p store fuel sched k ds m m2).rs.results)
+    (hnot : (d, v) ∉ (secondAt cfg p store fuel sched k ds m (m2 + 1)).rs.results) :
+    (secondAt cfg p store fuel sched k ds m m2).rs.ts.pendDependents d = [] ∧
+    ∀ t, d ∈ (plan cfg p store fuel).ddeps t →
+      ∃ o, Ev.yield t o ∈ (secondAt cfg p store fuel sched k ds m m2).rs.trace :=
+  (secondStateAt_RI store fuel sched k ds m m2).released (secondStateAt_RT store fuel sched k ds m m2) d v hd hnot
+
+/-- (C) on the observable record: every `remove_results(rem)` on record, in the trace of any state of
+    the three streams, names only tasks all of whose planned direct dependents had been yielded before -/
+theorem remove_event_only_unneeded_every_instant (cfg : Config) (p : Problem) (store : Store) (fuel : Nat)
+    (sched : List Choice) (k : Nat) (ds : List Choice) (m m2 : Nat) (pre post : List Ev) (rem left : List Tid)
+    (h : (mainAt cfg p store fuel sched k).rs.trace = pre ++ Ev.remove rem left :: post ∨
+         (handlerAt cfg p store fuel sched k ds m).rs.trace = pre ++ Ev.remove rem left :: post ∨
+         (secondAt cfg p store fuel sched k ds m m2).rs.trace = pre ++ Ev.remove rem left :: post) :
+    ∀ d ∈ rem, ∀ t, d ∈ (plan cfg p store fuel).ddeps t → ∃ o, Ev.yield t o ∈ pre := by
+  intro d hd t ht
+  rw [← mem_yieldedOf]
+  rcases h with h | h | h
+  · exact (stateAt_RI store fuel sched k).remH pre _ post h d hd t ht
+  · exact (handlerStateAt_RI store fuel sched k ds m).remH pre _ post h d hd t ht
+  · exact (secondStateAt_RI store fuel sched k ds m m2).remH pre _ post h d hd t ht
+
+/-- (C) results of requested tasks are captured for the return value BEFORE release: whatever statement
+    is executed at any instant of the three streams, a requested task's entry that leaves `results_map` in
+    that step is already in `task_results` -/
+theorem captured_before_release_every_instant (cfg : Config) (p : Problem) (store : Store) (fuel : Nat)
+    (sched : List Choice) (k : Nat) (ds : List Choice) (m m2 : Nat) (s s' : IS)
+    (hs : (s = mainAt cfg p store fuel sched k ∧ s' = mainAt cfg p store fuel sched (k + 1)) ∨
+      (s = handlerAt cfg p store fuel sched k ds m ∧ s' = handlerAt cfg p store fuel sched k ds (m + 1)) ∨
+      (s = secondAt cfg p store fuel sched k ds m m2 ∧ s' = secondAt cfg p store fuel sched k ds m (m2 + 1)))
+    (d : Tid) (v : Val) (hr : d ∈ reqTids p) (hd : (d, v) ∈ s.rs.results) (hnot : (d, v) ∉ s'.rs.results) :
+    (d, v) ∈ s.rs.taskResults := by
+  rcases hs with ⟨rfl, rfl⟩ | ⟨rfl, rfl⟩ | ⟨rfl, rfl⟩
+  · exact (stateAt_RT store fuel sched k d v hd hnot).2 hr
+  · exact (handlerStateAt_RT store fuel sched k ds m d v hd hnot).2 hr
+  · exact (secondStateAt_RT store fuel sched k ds m m2 d v hd hnot).2 hr
+
+/-- `task_results` at every instant of all three streams: it holds only values that were really yielded,
+    and it holds the value of every requested task that was yielded successfully and has left the
+    active set -/
+theorem captured_every_instant (cfg : Config) (p : Problem) (store : Store) (fuel : Nat)
+    (sched : List Choice) (k : Nat) (ds : List Choice) (m m2 : Nat) (s : IS)
+    (hs : s = mainAt cfg p store fuel sched k ∨ s = handlerAt cfg p store fuel sched k ds m ∨
+      s = secondAt cfg p store fuel sched k ds m m2) (d : Tid) (v : Val) :
+    ((d, v) ∈ s.rs.taskResults → Ev.yield d (.ok v) ∈ s.rs.trace) ∧
+    (d ∈ reqTids p → Ev.yield d (.ok v) ∈ s.rs.trace → d ∉ s.rs.ts.active → (d, v) ∈ s.rs.taskResults) := by
+  rcases hs with rfl | rfl | rfl
+  · exact ⟨(stateAt_RI store fuel sched k).capY d v, (stateAt_RI store fuel sched k).cap d v⟩
+  · exact ⟨(handlerStateAt_RI store fuel sched k ds m).capY d v, (handlerStateAt_RI store fuel sched k ds m).cap d v⟩
+  · exact ⟨(secondStateAt_RI store fuel sched k ds m m2).capY d v,
+      (secondStateAt_RI store fuel sched k ds m m2).cap d v⟩
+
+/-- SAFETY and VALUE for `interruptedRun` itself: the state at the interrupt and the final state, for
+    every interrupt instant `k`, drain schedule `ds` and optional second interrupt instant `k2` -/
+theorem results_sound_interrupted (cfg : Config) (p : Problem) (store : Store) (fuel : Nat)
+    (sched ds : List Choice) (k : Nat) (k2 : Option Nat) (s : IS)
+    (hs : s = (interruptedRun cfg p store fuel sched k ds k2).atIntr ∨
+      s = (interruptedRun cfg p store fuel sched k ds k2).final) :
+    (∀ d v, (d, v) ∈ s.rs.results →
+      Ev.yield d (.ok v) ∈ s.rs.trace ∧ Ev.yield d .exc ∉ s.rs.trace ∧ Ev.yield d .died ∉ s.rs.trace) ∧
+    (s.rs.results.map Prod.fst).Nodup ∧
+    (∀ d v, Ev.yield d (.ok v) ∈ s.rs.trace → d ∉ s.rs.ts.active → s.rs.ts.pendDependents d ≠ [] →
+      (d, v) ∈ s.rs.results) ∧
+    (∀ d v t, Ev.yield d (.ok v) ∈ s.rs.trace → d ∉ s.rs.ts.active → d ∈ (plan cfg p store fuel).ddeps t →
+      (∀ o, Ev.yield t o ∉ s.rs.trace) → (d, v) ∈ s.rs.results) := by
+  have key : RI (plan cfg p store fuel) (reqTids p) s := by
+    obtain ⟨⟨k', h1⟩, h2⟩ := interruptedRun_states cfg p store fuel sched ds k k2
+    rcases hs with rfl | rfl
+    · rw [h1]; exact stateAt_RI store fuel sched k'
+    · rcases h2 with ⟨k'', h2⟩ | ⟨m, h2⟩ | ⟨m, m2, h2⟩ <;> rw [h2]
+      · exact stateAt_RI store fuel sched k''
+      · exact handlerStateAt_RI store fuel sched k ds m
+      · exact secondStateAt_RI store fuel sched k ds m m2
+  exact ⟨key.heldSound.1, key.heldSound.2, key.held, fun d v t => key.neededHeld d v t⟩
+
+/-- (D) at the loop head the whole main stream ends in, the two directions close to the equality of
+    `results_value` (every loop head is the end of the stream of a prefix schedule) -/
+theorem loop_head_exact (cfg : Config) (p : Problem) (store : Store) (fuel : Nat) (sched : List Choice) :
+    let s := mainAt cfg p store fuel sched (mainOf cfg p store fuel sched).length
+    s.rs.status = .running → ∀ d v,
+      ((d, v) ∈ s.rs.results ↔ (Ev.yield d (.ok v) ∈ s.rs.trace ∧ s.rs.ts.pendDependents d ≠ [])) := by
+  intro s hrun d v
+  have e : s.rs = runLoop cfg p (reqTids p) sched (initRS cfg p store fuel) := by
+    show (stateAt cfg p store fuel sched (mainOf cfg p store fuel sched).length).rs = _
+    simp only [stateAt, List.take_length]
+    exact run_refine store fuel sched
+  rw [e] at hrun ⊢
+  exact results_value cfg p store fuel sched hrun d v
+
+/-! non-vacuity at instants strictly inside `process_completed_tasks`, and in interrupted runs (`exP`:
+    tasks 1 and 2 need task 0; fork, one worker). The main stream has 45 primitives: … 35 consumeResults,
+    36 popFuture 2, 37 storeResult 2 2, 38 capture 2 2, 39 markInstances 2, 40 removeActive 2,
+    41 releaseOne 2 0, 42 removeResult 0, 43 removeResult 2, 44 removeDone [0, 2]. -/
+def exCfgI : Config := { backend := .fork, maxWorkers := 1, contOnFail := true, bust := false }
+def exAllI : List Choice := List.replicate 4 ⟨fun _ => true⟩
+
+/-- k = 42, strictly inside `process_completed_tasks` (inside `remove_results`): the last dependent has
+    left `task_to_pending_dependents[0]`, every dependent of 0 has been yielded, and the result of 0 is
+    STILL held — the "iff" of the loop-head theorem is false here, only the two directions hold. One
+    statement later (k = 43) it is gone; the requested 2 was captured (k = 39) before it leaves (k = 44) -/
+example : (mainOf exCfgI exP [] 4 exAllI).length = 45 ∧
+    (mainAt exCfgI exP [] 4 exAllI 42).rs.results = [(2, 2), (0, 0)] ∧
+    (mainAt exCfgI exP [] 4 exAllI 42).rs.ts.pendDependents 0 = [] ∧
+    (mainAt exCfgI exP [] 4 exAllI 42).rs.status = .running ∧
+    yieldedOf (mainAt exCfgI exP [] 4 exAllI 42).rs.trace = [0, 1, 2] ∧
+    (mainAt exCfgI exP [] 4 exAllI 43).rs.results = [(2, 2)] ∧
+    (mainAt exCfgI exP [] 4 exAllI 39).rs.taskResults = [(2, 2), (1, 1)] ∧
+    (mainAt exCfgI exP [] 4 exAllI 44).rs.results = [] := by decide
+
+/-- k = 8, right after `future_to_task.pop` of task 0 (the model records the `yield` there): the value
+    is not stored yet although 1 and 2 need it; 0 is still active — the reason for `d ∉ active` in
+    `needed_is_held_every_instant`. At k = 11 (`removeActive 0` done, mid-`complete_task`) it is held -/
+example : Ev.yield 0 (.ok 0) ∈ (mainAt exCfgI exP [] 4 exAllI 8).rs.trace ∧
+    (mainAt exCfgI exP [] 4 exAllI 8).rs.results = [] ∧
+    (mainAt exCfgI exP [] 4 exAllI 8).rs.ts.pendDependents 0 = [1, 2] ∧
+    (mainAt exCfgI exP [] 4 exAllI 8).rs.ts.active = [0] ∧
+    (mainAt exCfgI exP [] 4 exAllI 11).rs.ts.active = [] ∧
+    (mainAt exCfgI exP [] 4 exAllI 11).rs.results = [(0, 0)] := by decide
+
+/-- single interrupt at k = 20 (the worker of 1 is running): the drain completes 1 AFTER the interrupt,
+    its result is stored, captured and released again (nobody needs it), while the result of 0 stays:
+    2 still needs it -/
+example :
+    (interruptedRun exCfgI exP [] 4 exAllI 20 exAllI none).outcome = .interrupted ∧
+    (interruptedRun exCfgI exP [] 4 exAllI 20 exAllI none).atIntr.rs.results = [(0, 0)] ∧
+    (interruptedRun exCfgI exP [] 4 exAllI 20 exAllI none).final.rs.results = [(0, 0)] ∧
+    (interruptedRun exCfgI exP [] 4 exAllI 20 exAllI none).final.rs.taskResults = [(1, 1)] ∧
+    (interruptedRun exCfgI exP [] 4 exAllI 20 exAllI none).final.rs.ts.pendDependents 0 = [2] ∧
+    Ev.yield 1 (.ok 1) ∈ (interruptedRun exCfgI exP [] 4 exAllI 20 exAllI none).final.rs.trace ∧
+    Ev.remove [1] [0] ∈ (interruptedRun exCfgI exP [] 4 exAllI 20 exAllI none).final.rs.trace := by decide
+
+/-- interrupt at k = 8 (between the pop of 0 and `results_map[0] = …`): the handler never resumes the loop
+    body, so 0 stays active and its value is never stored, although 1 and 2 are still listed as needing
+    it: the hypothesis `d ∉ active` cannot be dropped in the handler's stream -/
+example :
+    (interruptedRun exCfgI exP [] 4 exAllI 8 exAllI none).outcome = .interrupted ∧
+    (interruptedRun exCfgI exP [] 4 exAllI 8 exAllI none).final.rs.results = [] ∧
+    (interruptedRun exCfgI exP [] 4 exAllI 8 exAllI none).final.rs.ts.active = [0] ∧
+    (interruptedRun exCfgI exP [] 4 exAllI 8 exAllI none).final.rs.ts.pendDependents 0 = [1, 2] ∧
+    Ev.yield 0 (.ok 0) ∈ (interruptedRun exCfgI exP [] 4 exAllI 8 exAllI none).final.rs.trace := by decide
+
+/-- double interrupt (k = 20, second one after 3 primitives of the first handler: 1 popped and stored, not
+    yet captured): the second handler cancels, stops and processes nothing more; both results stay held,
+    the requested 1 was never captured (it is still active) -/
+example :
+    (interruptedRun exCfgI exP [] 4 exAllI 20 exAllI (some 3)).outcome = .interrupted ∧
+    (interruptedRun exCfgI exP [] 4 exAllI 20 exAllI (some 3)).final.rs.results = [(1, 1), (0, 0)] ∧
+    (interruptedRun exCfgI exP [] 4 exAllI 20 exAllI (some 3)).final.rs.taskResults = [] ∧
+    (interruptedRun exCfgI exP [] 4 exAllI 20 exAllI (some 3)).final.rs.ts.active = [1] := by decide
+
+/-- the theorems applied to these runs: hypotheses satisfiable, conclusions about real entries -/
+example : (0, 0) ∈ (interruptedRun exCfgI exP [] 4 exAllI 20 exAllI none).final.rs.results :=
+  (results_sound_interrupted exCfgI exP [] 4 exAllI exAllI 20 none _ (Or.inr rfl)).2.2.2 0 0 2
+    (by decide) (by decide) (by decide)
+    (fun o h => by
+      have h2 := (mem_yieldedOf _ 2).mpr ⟨o, h⟩
+      revert h2
+      decide)
+
+/-- k = 27, between `releaseOne 1 0` and `removeResult 1` of `complete_task(1)`: 0 is held because 2 needs it -/
+example : (0, 0) ∈ (mainAt exCfgI exP [] 4 exAllI 27).rs.results :=
+  needed_is_held_every_instant exCfgI exP [] 4 exAllI 27 0 0 (by decide) (by decide) (by decide)
+
+/-- the step 43 → 44 (`removeResult 2`) drops the entry of the requested task 2: it was captured before -/
+example : (2, 2) ∈ (mainAt exCfgI exP [] 4 exAllI 43).rs.taskResults :=
+  captured_before_release_every_instant exCfgI exP [] 4 exAllI 43 [] 0 0 _ _ (Or.inl ⟨rfl, rfl⟩) 2 2
+    (by decide) (by decide) (by decide)
+
+example : (mainAt exCfgI exP [] 4 exAllI 42).rs.ts.pendDependents 0 = [] ∧
+    ∀ t, 0 ∈ (plan exCfgI exP [] 4).ddeps t → ∃ o, Ev.yield t o ∈ (mainAt exCfgI exP [] 4 exAllI 42).rs.trace :=
+  released_only_when_unneeded_every_instant exCfgI exP [] 4 exAllI 42 0 0 (by decide) (by decide)
+
+/-- the diamond (`invExP`: 3 needs 1 and 2, both need 0; 62 primitives). k = 42, inside `remove_results`
+    of `complete_task(2)`: 0 is unneeded and still held next to 1 and 2, which 3 needs. An interrupt at
+    k = 12, in the middle of `complete_task(0)` (`unblockOne 0 1` done, `unblockOne 0 2` not yet): the drain
+    has nothing to wait for, the result of 0 stays held, 1 and 2 are still listed as needing it -/
+example :
+    (mainAt invExCfg invExP [] 4 (List.replicate 5 chooseFirst) 42).rs.results = [(2, 2000), (1, 1000), (0, 0)] ∧
+    (mainAt invExCfg invExP [] 4 (List.replicate 5 chooseFirst) 42).rs.ts.pendDependents 0 = [] ∧
+    (mainAt invExCfg invExP [] 4 (List.replicate 5 chooseFirst) 42).rs.ts.pendDependents 1 = [3] ∧
+    (interruptedRun invExCfg invExP [] 4 (List.replicate 5 chooseFirst) 12 (List.replicate 5 chooseFirst) none).hit = true ∧
+    (interruptedRun invExCfg invExP [] 4 (List.replicate 5 chooseFirst) 12 (List.replicate 5 chooseFirst) none).final.rs.results
+      = [(0, 0)] ∧
+    (interruptedRun invExCfg invExP [] 4 (List.replicate 5 chooseFirst) 12 (List.replicate 5 chooseFirst)
+      none).final.rs.ts.pendDependents 0 = [1, 2] := by
+  decide
 
 end Lt.Props.C17
